@@ -80,7 +80,7 @@ func moduleAddr(name *Term) *Term {
 func bechFacts(st *State, a *Term) {
 	s := bechOfAddr(a)
 	st.assume(Eq(addrOfBech(s), a))
-	st.assume(Or(bechOK(s), Eq(a, BytesNil), UF("bytes_empty", SBool, a)))
+	st.assume(Or(bechOK(s), Eq(a, BytesNil), bytesEmpty(a)))
 }
 
 func nonNilErr(x *Exec, st *State, name string) *Term {
@@ -517,7 +517,7 @@ func init() {
 	theory[pCoins+"Sort"] = func(x *Exec, f *Frame, st *State, c *CallInfo) Val { return c.T(0) }
 	theory[pCoins+"Len"] = func(x *Exec, f *Frame, st *State, c *CallInfo) Val {
 		l := UF("coins_len", SInt, c.T(0))
-		st.assume(Ge(l, IntLit(0)))
+		st.assume(lenRange(l))
 		return l
 	}
 	theory[pCoins+"String"] = func(x *Exec, f *Frame, st *State, c *CallInfo) Val { return UF("coins_to_str", SStr, c.T(0)) }
@@ -535,14 +535,14 @@ func init() {
 		e := x.freshTerm("bech32err", SErr)
 		st.assume(Eq(Eq(e, ErrNil), bechOK(s)))
 		// a valid bech32 string decodes to a non-empty address and re-encodes to itself
-		st.assume(Implies(bechOK(s), And(Neq(a, BytesNil), Not(UF("bytes_empty", SBool, a)), Eq(bechOfAddr(a), s))))
+		st.assume(Implies(bechOK(s), And(Neq(a, BytesNil), Not(bytesEmpty(a)), Eq(bechOfAddr(a), s))))
 		return &TupleVal{[]Val{Ite(bechOK(s), a, BytesNil), e}}
 	}
 	theory[pSdk+"MustAccAddressFromBech32"] = func(x *Exec, f *Frame, st *State, c *CallInfo) Val {
 		s := c.T(0)
 		x.panicSite(f, st, Not(bechOK(s)), "MustAccAddressFromBech32 at "+c.Pos)
 		a := addrOfBech(s)
-		st.assume(And(Neq(a, BytesNil), Not(UF("bytes_empty", SBool, a)), Eq(bechOfAddr(a), s)))
+		st.assume(And(Neq(a, BytesNil), Not(bytesEmpty(a)), Eq(bechOfAddr(a), s)))
 		return a
 	}
 	theory[pAcc+"String"] = func(x *Exec, f *Frame, st *State, c *CallInfo) Val {
@@ -550,7 +550,7 @@ func init() {
 		return bechOfAddr(c.T(0))
 	}
 	theory[pAcc+"Empty"] = func(x *Exec, f *Frame, st *State, c *CallInfo) Val {
-		return Or(Eq(c.T(0), BytesNil), UF("bytes_empty", SBool, c.T(0)))
+		return Or(Eq(c.T(0), BytesNil), bytesEmpty(c.T(0)))
 	}
 	theory[pAcc+"Equals"] = func(x *Exec, f *Frame, st *State, c *CallInfo) Val {
 		if t, ok := c.Args[1].(*Term); ok {
@@ -569,7 +569,7 @@ func init() {
 	}
 	theory["github.com/cosmos/cosmos-sdk/x/auth/types.NewModuleAddress"] = func(x *Exec, f *Frame, st *State, c *CallInfo) Val {
 		a := moduleAddr(c.T(0))
-		st.assume(And(Neq(a, BytesNil), Not(UF("bytes_empty", SBool, a))))
+		st.assume(And(Neq(a, BytesNil), Not(bytesEmpty(a))))
 		return a
 	}
 	theory[pSdk+"Uint64ToBigEndian"] = func(x *Exec, f *Frame, st *State, c *CallInfo) Val {
@@ -850,6 +850,10 @@ func (x *Exec) sprintf(st *State, c *CallInfo) Val {
 			}
 		}
 	}
+	// "%d" of one integer is the decimal rendering strconv.FormatInt(_, 10) / Itoa give
+	if len(ts) == 2 && ts[0].kind == tSym && ts[0].Name == `str:"%d"` && ts[1].Sort == SInt {
+		return UF("fmt_int", SStr, ts[1])
+	}
 	return UF(name, SStr, ts...)
 }
 
@@ -925,7 +929,7 @@ func init() {
 			return x.freshTerm("addrhash", SBytes)
 		}
 		a := UF("address_hash", SBytes, b)
-		st.assume(And(Neq(a, BytesNil), Not(UF("bytes_empty", SBool, a))))
+		st.assume(And(Neq(a, BytesNil), Not(bytesEmpty(a))))
 		return a
 	}
 	theory["(*math/big.Int).Sqrt"] = func(x *Exec, f *Frame, st *State, c *CallInfo) Val {
@@ -939,8 +943,15 @@ func init() {
 		return c.Args[0]
 	}
 	theory["strconv.FormatBool"] = func(x *Exec, f *Frame, st *State, c *CallInfo) Val { return UF("fmt_bool", SStr, c.T(0)) }
-	theory["strconv.FormatUint"] = func(x *Exec, f *Frame, st *State, c *CallInfo) Val { return UF("fmt_uint", SStr, c.T(0)) }
-	theory["strconv.FormatInt"] = func(x *Exec, f *Frame, st *State, c *CallInfo) Val { return UF("fmt_int", SStr, c.T(0)) }
+	fmtBase := func(c *CallInfo) Val {
+		// base 10 is the decimal rendering (the same term "%d" gives); another base is another function
+		if b := c.T(1); b != nil && b.IsLit() && b.Lit.Int64() == 10 {
+			return UF("fmt_int", SStr, c.T(0))
+		}
+		return UF("fmt_int_base", SStr, c.T(0), c.T(1))
+	}
+	theory["strconv.FormatUint"] = func(x *Exec, f *Frame, st *State, c *CallInfo) Val { return fmtBase(c) }
+	theory["strconv.FormatInt"] = func(x *Exec, f *Frame, st *State, c *CallInfo) Val { return fmtBase(c) }
 	theory["strconv.Itoa"] = func(x *Exec, f *Frame, st *State, c *CallInfo) Val { return UF("fmt_int", SStr, c.T(0)) }
 }
 
@@ -1005,7 +1016,7 @@ func init() {
 			h := UF(name, SBytes, b)
 			// A-HASH: collision freedom = the hash has a left inverse
 			st.assume(Eq(UF(name+"_pre", SBytes, h), b))
-			st.assume(And(Neq(h, BytesNil), Not(UF("bytes_empty", SBool, h))))
+			st.assume(And(Neq(h, BytesNil), Not(bytesEmpty(h))))
 			return h
 		}
 	}
